@@ -239,7 +239,7 @@ func body(s *simrt.Sim, tier string) {
 			s.Fail("executed-after-removal", fmt.Sprintf("item i%d (key %s) executed at step %d although a Dequeue/replacement of its key returned at step %d, before the item became due", x.id, x.key, x.execStep, removedBy))
 		}
 		if x.execs == 0 && !maybeRemoved {
-			s.Fail("stranded-item", fmt.Sprintf("item i%d (key %s, due %v before settle) was never executed although it was neither dequeued nor replaced; live loop goroutines: %v", x.id, x.key, time.Since(x.t), s.Live("process")))
+			s.Fail("stranded-item", fmt.Sprintf("item i%d (key %s, due %v before settle) was never executed although it was neither dequeued nor replaced; live loop goroutines: %v", x.id, x.key, time.Since(x.t), s.Live("")))
 		}
 		if x.execs >= 1 && !closeRace {
 			due := x.t
@@ -275,7 +275,7 @@ func body(s *simrt.Sim, tier string) {
 		}
 	}
 	s.Sleep(50 * time.Millisecond)
-	if l := s.Live("process"); len(l) > 0 {
+	if l := s.Live(""); len(l) > 0 {
 		s.Fail("loop-alive-after-close", fmt.Sprintf("processor goroutines alive after Close returned: %v", l))
 	}
 }
